@@ -202,8 +202,10 @@ public:
 
     GaloisFieldDict &operator+=(const integer_class &other)
     {
-        if (dict_.empty() or other == integer_class(0))
+        if (other == integer_class(0))
             return down_cast<GaloisFieldDict &>(*this);
+        if (dict_.empty())
+            dict_.push_back(integer_class(0));
         integer_class temp = dict_[0] + other;
         mp_fdiv_r(temp, temp, modulo_);
         dict_[0] = temp;
